@@ -111,12 +111,12 @@ def run_unit_kani(unit_name, unit_dir, unit, tier, work, only_props=None, playba
             cmd += ['--harness', h['name']]
         env = dict(os.environ, CARGO_NET_OFFLINE='true')
         tmo = kspec.get('timeout', 1500 if tier == 'quick' else 7200)
+        from .verus import run_group
         try:
-            p = subprocess.run(cmd, cwd=dst, env=env, capture_output=True, text=True, timeout=tmo)
+            p = run_group(cmd, cwd=dst, env=env, timeout=tmo)
             out = p.stdout + '\n' + p.stderr
         except subprocess.TimeoutExpired as ex:
-            out = (ex.stdout or b'').decode('utf-8', 'replace') if isinstance(ex.stdout, bytes) else (ex.stdout or '')
-            out += '\n[driver] cargo kani timed out after %ds' % tmo
+            out = '\n[driver] cargo kani timed out after %ds' % tmo
     finally:
         fcntl.flock(lock, fcntl.LOCK_UN)
         lock.close()
@@ -178,8 +178,9 @@ def concrete_playback(dst, target, hname, kspec):
     cmd = ['cargo', 'kani', '-p', 'pdf', '-Z', 'function-contracts', '-Z', 'stubbing', '-Z', 'concrete-playback',
            '--concrete-playback=print', '--target-dir', target, '--harness', hname, '--output-format', 'terse']
     env = dict(os.environ, CARGO_NET_OFFLINE='true')
+    from .verus import run_group
     try:
-        p = subprocess.run(cmd, cwd=dst, env=env, capture_output=True, text=True, timeout=kspec.get('playback_timeout', 900))
+        p = run_group(cmd, cwd=dst, env=env, timeout=kspec.get('playback_timeout', 900))
     except subprocess.TimeoutExpired:
         return None
     out = p.stdout + p.stderr
